@@ -124,6 +124,12 @@ pub struct SR<'a> {
     pub ctl: &'a Ctl,
 }
 
+impl<'a> std::fmt::Debug for SR<'a> {
+    fn fmt(&self, f: &mut std::fmt::Formatter) -> std::fmt::Result {
+        write!(f, "SR(pos={}, len={})", self.pos, self.data.len())
+    }
+}
+
 impl<'a> SR<'a> {
     pub fn new(data: &'a [u8], ctl: &'a Ctl) -> Self {
         SR { data, pos: 0, ctl }
